@@ -22,6 +22,12 @@ func Forall(f any) bool { panic("verifspec: ghost function") }
 // Exists takes a func(x T, ...) bool literal.
 func Exists(f any) bool { panic("verifspec: ghost function") }
 
+// And / Or: the logical connectives a && b(), a || b() of specifications written under
+// `option logical` (the verifier evaluates b under the assumption that decides it and
+// forks no path).
+func And(a bool, b func() bool) bool { return a && b() }
+func Or(a bool, b func() bool) bool  { return a || b() }
+
 // EqT states that both thunks yield Eq values and invoke the same user
 // callbacks, with the same arguments, in the same order (or both panic).
 func EqT(a, b func() any) bool { panic("verifspec: ghost function") }
@@ -169,3 +175,7 @@ func LastCASOld() unsafe.Pointer { panic("verifspec: ghost function") }
 // C15 is relative to: json.Marshal(v) succeeds, its output is not the literal
 // null, and json.Unmarshal of that output yields a value Eq to v.
 func JSONFaithful(v any) bool { panic("verifspec: ghost function") }
+
+// OldBool / OldInt: typed forms of Old for boolean / integer expressions.
+func OldBool(f func() bool) bool { panic("verifspec: ghost function") }
+func OldInt(f func() int) int    { panic("verifspec: ghost function") }
